@@ -17,7 +17,10 @@ def _norm(v):
         return tuple(_norm(x) for x in v) if hasattr(v, '_fields') or isinstance(v, tuple) else [_norm(x) for x in v]
     if isinstance(v, dict):
         return {a: _norm(b) for a, b in v.items()}
-    if isinstance(v, Fraction) and v.denominator == 1:
+    if isinstance(v, Fraction):
+        # the interpreter keeps floats as exact rationals: compared by value
+        return int(v) if v.denominator == 1 else float(v)
+    if isinstance(v, float) and v == int(v) and abs(v) < 2 ** 53:
         return int(v)
     return v
 
